@@ -1101,6 +1101,22 @@ fn stream_rel(thorough: bool, seed: u64, out: &mut dyn Write) {
             // the same value along a second route through the safe API
             writeln!(out, "route {} {}", hex(&x), (i / 4) % 8).unwrap();
         }
+        if i % 40 == 7 {
+            // long identifiers against their own canonical text (and near misses of it): 6 to 14 distinct variants
+            let k = 6 + r.below(9);
+            let mut vs: Vec<Vec<u8>> = (0..k).map(|_| rand_word(&mut r, ALNUM, 5, 8)).collect();
+            vs.sort();
+            vs.dedup();
+            let mut toks = vec![w("en"), w("Latn"), w("US")];
+            toks.extend(vs);
+            let canon = join(&toks.iter().collect::<Vec<_>>(), b'-');
+            let spelled = render(&mut r, &toks, 2);
+            writeln!(out, "eqstr {} {}", hex(&spelled), hex(&canon)).unwrap();
+            let mut longer = canon.clone();
+            longer.extend_from_slice(b"-zzzzz");
+            writeln!(out, "eqstr {} {}", hex(&spelled), hex(&longer)).unwrap();
+            writeln!(out, "eqstr {} {}", hex(&spelled), hex(&canon[..canon.len() - 1])).unwrap();
+        }
         if i % 5 == 0 {
             let li: Vec<Vec<u8>> = a.tokens().into_iter().take(1 + r.below(3)).collect();
             let s = render(&mut r, &li, 0);
